@@ -13,7 +13,7 @@ S=/tmp/vf_seed.$$; rm -rf $S; mkdir -p $S
 git -C /repo archive HEAD | tar -x -C $S
 mkdir -p $S/seed_out/$srcsub; cp $src/demo.* $src/build.sh $S/seed_out/$srcsub/ 2>/dev/null
 # some agents wrote absolute paths of their own worktree into build.sh: make them relative to the tree under test
-sed -i -E "s#/tmp/seed2?/$id/##g" $S/seed_out/$srcsub/build.sh
+sed -i -E "s#/tmp/seed[0-9]*/$id/##g; s/; *echo \"exit=\\\$\?\" *\$//" $S/seed_out/$srcsub/build.sh
 # demo on the clean tree
 ( cd $S && bash seed_out/$srcsub/build.sh > $S/demo_clean.out 2>&1 ); clean_rc=$?
 ( cd $S && git init -q . && git apply --whitespace=nowarn $src/patch.diff ) || { echo "patch does not apply"; rm -rf $S; exit 2; }
@@ -30,7 +30,7 @@ for p in $id $extra; do
 done
 rm -rf /tmp/vf_ev.$$ /tmp/vf_bld.$$
 mkdir -p $dst; [ "$src" = "$dst" ] || cp $src/patch.diff $src/demo.* $src/build.sh $src/NOTES.md $dst/ 2>/dev/null
-sed -i -E "s#/tmp/seed2?/$id/##g" $dst/build.sh
+sed -i -E "s#/tmp/seed[0-9]*/$id/##g" $dst/build.sh
 [ "$srcsub" = "$v" ] || sed -i "s#seed_out/$srcsub/#seed_out/$v/#g" $dst/build.sh
 python3 - "$id" "$v" "$dst" "$suite" "$clean_rc" "$mut_rc" "${results%,}" "$extra" <<'PYEOF'
 import json, sys, re, subprocess
